@@ -531,6 +531,18 @@ def _self_attrs(node, repo=None, cls=None, depth=3, seen=None):
     """attributes of self read in a method body; calls to other methods / properties of the same class are followed (a
     __hash__ or __eq__ written through a helper such as self._key() reads what the helper reads)"""
     out = {n.attr for n in ast.walk(node) if isinstance(n, ast.Attribute) and dotted(n.value) == "self"}
+    if repo is not None and cls is not None:
+        # members read through a module-level getter: `_key = attrgetter("id", "parent.id")` ... `_key(self)`; getattr(self, "x")
+        for n in ast.walk(node):
+            if not isinstance(n, ast.Call):
+                continue
+            if isinstance(n.func, ast.Name) and n.args and dotted(n.args[0]) == "self":
+                if n.func.id == "getattr" and len(n.args) > 1 and isinstance(n.args[1], ast.Constant) and isinstance(n.args[1].value, str):
+                    out.add(n.args[1].value)
+                    continue
+                d = cls.module.assigns.get(n.func.id)
+                if isinstance(d, ast.Call) and (dotted(d.func) or "").split(".")[-1] == "attrgetter":
+                    out |= {a.value.split(".")[0] for a in d.args if isinstance(a, ast.Constant) and isinstance(a.value, str)}
     if repo is None or cls is None or depth <= 0:
         return out
     seen = seen or set()
@@ -553,6 +565,10 @@ def r5_cache_keys(ctx):
     assigned = {n.attr for n in ast.walk(init.node) if isinstance(n, ast.Attribute) and isinstance(n.ctx, ast.Store) and dotted(n.value) == "self"}
     assigned -= MEMO_FIELDS
     hashed = _self_attrs(hsh.node, repo, par)
+    if not hashed:
+        r.note("C10.R5: Parent.__hash__ reads no member of self in a form this rule recognises (direct attribute, getattr, module-level "
+               "attrgetter): the memo-key rule is not decided on this tree")
+        return
     alias = {"_strand": "strand"}  # the strand property reads _strand / location.strand
     for fld in sorted(assigned):
         r.check(fld in hashed or alias.get(fld) in hashed, "C10.R5", hsh.qual, f"field {fld} takes part in the hash",
